@@ -64,7 +64,8 @@ Proof.
                         (fun _ => False) loop_body (update "value" v1 rho) k')
                      (map bval (v :: l))
                      [("values", VList (map bval (v :: l))); ("result", bval BAuto)]
-                     (fun rho => returns_val (bval (fold_left fold_step (v :: l) BAuto)) rho (Some (lookup "result" rho)))).
+                     (fun rho => if flowing rho then returns_val (bval (fold_left fold_step (v :: l) BAuto)) rho None
+                                 else returns_val (bval (fold_left fold_step (v :: l) BAuto)) rho (Some (lookup "result" rho)))).
     cbn [map gen_iter].
     change (update "value" (bval v) [("values", VList (bval v :: map bval l)); ("result", bval BAuto)])
       with (fold_env (VList (bval v :: map bval l)) BAuto v).
